@@ -92,6 +92,18 @@ Theorem C15_rename_blank_spec :
 Proof. exact rename_blank_spec. Qed.
 Print Assumptions C15_rename_blank_spec.
 
+(* every signature Go accepts whose results are unnamed or blank and in which nothing is called f is
+   inside the guard of the four theorems above: named, blank, unnamed parameters and parameters
+   that look like the generator's own param_N are all covered *)
+Theorem C15_guard_from_source :
+  forall (ps : list (name * ty)) (rs : list name),
+  NoDup (filter (nonblank fixed) (names ps)) ->
+  ~ In "f" (names ps) ->
+  names_form rs = true -> filter bindable rs = [] ->
+  guardb (names (rename_blank fixed "param_" ps)) rs = true.
+Proof. exact guard_from_source. Qed.
+Print Assumptions C15_guard_from_source.
+
 (* pinned tree, repaired by repo-patches/C15-fix-unnamed-params.patch *)
 Theorem C15_plumb_unnamed_refuted :
   run_curry res0 pinned FUEL w_unnamed (prim_flat w_unnamed) [v1; v2] = RIll
